@@ -71,10 +71,6 @@ def toks(s):
     return _TOK.findall(s)
 
 
-KEYWORDS = {"class", "instance", "of", "qualifier", "scope", "flavor",
-            "pragma", "as", "ref", "null", "true", "false"}
-
-
 class Rendered:
     def __init__(self):
         self.text = ""            # main text
@@ -204,7 +200,6 @@ class Renderer:
     def prod_tokens(self, p, tag, here):
         """Token list of production p (before token-level mutation)."""
         k, d, v = p["k"], p["d"], p["v"]
-        kw = self.kw
         self.upper = (d == "none" and v == "upper_kw")
         if k == "qualDecl":
             return self.qualdecl(p, tag)
@@ -435,7 +430,7 @@ class Renderer:
         return self.pragma(name, param, v)
 
     def include(self, p, tag, here):
-        d, v = p["d"], p["v"]
+        v = p["v"]
         target = self.inc_path
         if v == "self":
             target = here
@@ -597,12 +592,14 @@ class Renderer:
         ses, out = self.ses, self.out
         os.makedirs(os.path.dirname(self.inc_path), exist_ok=True)
         has_inc = bool(ses.get("inc"))
-        if has_inc:
-            inc_text = self.render_file(ses["inc"], 2, self.inc_path)
-            with open(self.inc_path, "w", encoding="utf-8", newline="") as f:
-                f.write(inc_text)
-            out.files[2] = self.inc_path
-            out.texts.append({"fid": 2, "text": self.as_read(self.inc_path)})
+        # the include file always exists (a token-mutated include directive
+        # of a session without include file may still name it)
+        inc_text = self.render_file(ses["inc"], 2, self.inc_path) \
+            if has_inc else "// empty include file\n"
+        with open(self.inc_path, "w", encoding="utf-8", newline="") as f:
+            f.write(inc_text)
+        out.files[2] = self.inc_path
+        out.texts.append({"fid": 2, "text": self.as_read(self.inc_path)})
         out.text = self.render_file(ses["main"], 1, self.main_path)
         with open(self.main_path, "w", encoding="utf-8", newline="") as f:
             f.write(out.text)
